@@ -1398,9 +1398,12 @@ def check_source(app: common.MemApp, src: str) -> tuple[str, str | None, str | N
 		return f'skip:outside-oracle:{e}', None, None
 	try:
 		ep = app.entrypoint(src)
-	except lark.exceptions.LarkError:
-		return 'skip:grammar-rejects', None, None
 	except Exception as e:  # noqa: BLE001
+		# a text outside grammar.lark is outside the property's quantifier: lark's own exception (pinned tree: raw for in-memory
+		# modules; after fix 12dd004: wrapped into Errors.Syntax with the lark exception as cause / argument)
+		causes = [e, e.__cause__, *getattr(e, 'args', ())]
+		if any(isinstance(c, lark.exceptions.LarkError) for c in causes):
+			return 'skip:grammar-rejects', None, None
 		return 'raise', f'raise:parse:{exc_enum(e)}', ''.join(traceback.format_exception_only(type(e), e))[-400:]
 	try:
 		tr = TranpCanon().module(ep)
